@@ -211,6 +211,17 @@ def shapes(tier, seed):
                 add([op, a, b], 2)
             if tier == "thorough" and rnd.random() < 0.3:
                 add(["not", [op, a, b]], 2, cache="off")
+    # a disjunction whose left alternative is a conjunction over (x, u) and whose right alternative does not mention u, and the
+    # dual (L = 3 inside the quantifier)
+    for P in both[:3]:
+        for Q_ in both[1:4]:
+            if P is Q_:
+                continue
+            for R in only_x:
+                add(["or", ["and", P, Q_], R], 2, pools={"X": 2, "U": 2})
+                add(["and", ["or", P, R], Q_], 2, pools={"X": 2, "U": 2})
+        add(["or", ["and", P, only_u[0]], only_x[0]], 3, pools={"X": 2, "U": 3})
+        add(["or", only_x[1], ["and", P, both[3]]], 3, pools={"X": 2, "U": 3})
     # combined with other conditions by and_
     for c in singles:
         for d in extra:
